@@ -206,6 +206,8 @@ def envelope_map(model: Model, ex, c: str, content) -> Dict[str, str]:
     fi = ex.dispatch[num]
     cfi = model.functions.get(content.func) if content is not None else model.functions.get(ex.envelope.func)
     call = dispatch_call(cfi) if cfi is not None else None
+    if call is None and content is None and ex.envelope.flat_body:
+        call = dispatch_call(ast.Module(body=ex.envelope.flat_body, type_ignores=[]))
     if call is None:
         return out
     params = getattr(res, "lambda_params", None) or (fi.params() if not isinstance(fi.node, ast.Lambda) else [a.arg for a in fi.node.args.args])
@@ -217,9 +219,10 @@ def envelope_map(model: Model, ex, c: str, content) -> Dict[str, str]:
 
 def dispatch_call(fi) -> "ast.Call | None":
     """The call through a local that holds the selected per-type unpack callable (whatever the local is named)."""
-    stores = {x.id for x in walk_no_nested(fi.node) if isinstance(x, ast.Name) and isinstance(x.ctx, ast.Store)}
+    node = getattr(fi, "node", fi)
+    stores = {x.id for x in ast.walk(node) if isinstance(x, ast.Name) and isinstance(x.ctx, ast.Store)}
     call = None
-    for n in walk_no_nested(fi.node):
+    for n in ast.walk(node):
         if isinstance(n, ast.Call) and isinstance(n.func, ast.Name) and n.func.id in stores and (n.args or n.keywords):
             call = n
     return call
